@@ -73,8 +73,8 @@ Section C01Term.
     - unfold is_active. rewrite (wf_active _ _ _ Hwf). reflexivity.
     - unfold is_blocked. apply not_true_is_false. intros Hb. apply existsb_exists in Hb as ([G t] & Hgt & _).
       unfold blocked_targets in Hgt. apply in_flat_map in Hgt as (m & Hm & Hmt).
-      apply filter_In in Hm as [Hm _]. destruct (wf_kinds _ _ _ Hwf m Hm) as [Hk _].
-      unfold is_gate in Hmt. rewrite Hk in Hmt. contradiction.
+      apply filter_In in Hm as [Hm _]. destruct (wf_kinds _ _ _ Hwf m Hm) as [[Hk|Hk] _];
+      unfold is_gate in Hmt; rewrite Hk in Hmt; contradiction.
     - unfold deferred. destruct (wf_kinds _ _ _ Hwf n Hn) as [_ Hw]. rewrite Hw. reflexivity.
   Qed.
 
@@ -234,8 +234,8 @@ Section C01Term.
       destruct Hex as [p [Hp Hh]]. apply (dead_intro a n p Hp Hh). intros m Hm Hout.
       destruct (Hset p m Hp Hm Hout) as [[r [Hr _]]|Hd]; [|exact Hd].
       (* a producer that has executed has written p *)
-      exfalso. destruct (inv_exec _ _ _ _ HI m r Hm Hr) as (s & ins & outs & _ & _ & _ & _ & He & _ & Hv).
-      destruct (wf_outs _ _ _ Hwf m s ins outs None Hm He) as [Hko _].
+      exfalso. destruct (inv_exec _ _ _ _ HI m r Hm Hr) as (s & ins & outs & _ & _ & _ & Hc & He & _ & Hv).
+      destruct (wf_outs _ _ _ Hwf m s ins outs None Hm (collect_keys _ _ _ _ _ _ Hc) He) as [Hko _].
       rewrite <- Hko in Hout. apply in_map_iff in Hout as [[o v] [E Hov]]. simpl in E. subst o.
       specialize (Hv p v Hov). unfold has_input in Hh. rewrite Hv in Hh. discriminate.
   Qed.
@@ -324,7 +324,7 @@ Section C01Term.
     destruct (exec n (ready_state g st) ins) as [outs dec|e|p] eqn:Ee.
     - exists ins, outs, dec. reflexivity.
     - exfalso. apply (Hnr n _ _ e Hn Ee).
-    - exfalso. apply (wf_nopause _ _ _ Hwf n _ _ p Ee).
+    - exfalso. apply (wf_nopause _ _ _ Hwf n _ _ p Hn Ee).
   Qed.
 
   (* C01_completes: with max_iterations >= K and node functions that do not raise, the run COMPLETES *)
